@@ -209,7 +209,7 @@ impl<'a> IExec<'a> {
             bal.insert(ci, sup);
         }
         let t = self.toks.len();
-        self.toks.push(Tok { id_bytes: addr_bytes(&taddr), kind: TokKind::Wasm, name: name.to_string(), symbol: symbol.to_string(), decimals, bal, minters, token_id: Some(id), locked: 0, released: 0, supply: sup });
+        self.toks.push(Tok { id_bytes: addr_bytes(&taddr), kind: TokKind::Wasm, name: name.to_string(), symbol: symbol.to_string(), decimals, bal, minters, token_id: Some(id), locked: 0, released: 0, supply: sup, flaky: false });
         self.tok_addr.push(taddr.clone());
         self.m.registry.insert(id, (t, true));
         self.m.reg_order.push(id);
@@ -518,6 +518,13 @@ impl<'a> IExec<'a> {
         let dchain = self.chain(chain);
         let gas_t = gas_tok as usize % self.toks.len();
         let g = gas as i128;
+        if let Some(tk) = canonical {
+            let t = tk as usize % self.toks.len();
+            let id = its_token_id(&its_canonical_salt(&self.cfg.chain_name, &saddr(&self.tok_addr[t])));
+            if self.toks[t].flaky && !contract_payer && self.m.registry.contains_key(&id) && self.m.trusted.contains(dchain) && g > 0 && self.bal(gas_t, ci) >= g {
+                return self.do_deploy_remote_flaky(ctx, t, ci, chain, gas_t, g, abort);
+            }
+        }
         let (id, func, args): ([u8; 32], &'static str, SVec<Val>) = match canonical {
             None => {
                 let sb = salt_bytes(salt);
@@ -653,6 +660,71 @@ impl<'a> IExec<'a> {
         }
     }
 
+    // ------------------------------------------------------------ a canonical token answers inconsistently (F9)
+
+    pub fn do_probe_set_flaky(&mut self, ctx: &mut Ctx, tok: u8, after: u8) {
+        let env = self.sim.env.clone();
+        let t = tok as usize % self.toks.len();
+        if self.toks[t].kind != TokKind::Probe {
+            return;
+        }
+        let taddr = self.tok_addr[t].clone();
+        let r = self.sim.query(&taddr, "set_flaky", (after as u32,).into_val(&env));
+        if r.is_err() {
+            ctx.harness("probe token refused set_flaky".into());
+            return;
+        }
+        ctx.count("F9.canonical_token_answers_metadata_reads_inconsistently");
+        self.toks[t].flaky = true;
+        ctx.trace_str("set_flaky");
+    }
+
+    /// Remote deployment of a canonical token whose metadata getters answer inconsistently.  What the
+    /// "true" metadata is cannot be said, so acceptance and refusal are both fine — but whatever is
+    /// announced must itself be representable: a non-empty name and symbol (decimals are a byte on the wire).
+    /// Every address approves during this call (the payer cannot know the payload it would have to sign).
+    #[allow(clippy::too_many_arguments)]
+    fn do_deploy_remote_flaky(&mut self, ctx: &mut Ctx, t: usize, ci: usize, chain: u8, gas_t: usize, g: i128, abort: Option<u16>) {
+        let env = self.sim.env.clone();
+        let its = self.its();
+        let dchain = self.chain(chain);
+        let args: SVec<Val> = (self.tok_addr[t].clone(), SStr::from_str(&env, dchain), self.h[ci].clone(), Token { address: self.tok_addr[gas_t].clone(), amount: g }).into_val(&env);
+        ctx.judged(&["C18"], self.state_hash(), "deploy_remote_canonical_token", "flaky-token");
+        self.sim.permissive_next = true;
+        let res = self.sim.call(&its, "deploy_remote_canonical_token", args, &[], abort);
+        ctx.note(|| format!("deploy_remote_canonical_token of a token that answers inconsistently -> {}", res.out.err_text()));
+        if !after_call(ctx, &res, "deploy_remote_canonical_token", &["C18"]) {
+            return;
+        }
+        ctx.count(&format!("op.deploy_remote_canonical_token.flaky-token.{}", res.out.class()));
+        if res.out.is_err() {
+            ctx.check(res.unchanged_full() && res.events.is_empty(), &["C18"], "deploy_remote/refused-request-changed-state", || "a refused remote deployment changed the ledger".into());
+            return;
+        }
+        // accepted: the payer paid the stated gas, and the announced message is representable
+        self.add_bal(gas_t, ci, -g);
+        self.add_bal(gas_t, H_GAS, g);
+        let w = self.from(&res.events, &self.gateway.clone());
+        let announced: Option<Vec<u8>> = w.iter().find(|e| e.name() == "contract_called").and_then(|e| match &e.data {
+            ScVal::Bytes(b) => Some(b.0.to_vec()),
+            _ => None,
+        });
+        let Some(bytes) = announced else {
+            ctx.check(false, &["C18"], "deploy_remote/accepted-without-announcement", || "accepted remote deployment announced nothing".into());
+            return;
+        };
+        let ok = match super::i_in::repo_decode(&env, &bytes) {
+            Ok(Some(AHub { msg: AMsg::Deploy { name, symbol, .. }, .. })) => !name.is_empty() && !symbol.is_empty(),
+            _ => false,
+        };
+        ctx.check(ok, &["C18"], "deploy_remote/accepted:unrepresentable-metadata", || format!("announced a deploy message with an empty name or symbol (or no deploy message at all): {}", hex::encode(&bytes)));
+        for tt in 0..self.toks.len() {
+            for hd in 0..NH {
+                self.touched.insert((tt, hd));
+            }
+        }
+    }
+
     // ------------------------------------------------------------ a canonical token changes its own metadata
 
     pub fn do_probe_set_meta(&mut self, ctx: &mut Ctx, tok: u8, meta: &MetaSpec) {
@@ -671,6 +743,7 @@ impl<'a> IExec<'a> {
             return;
         }
         ctx.count("probe.canonical_token_changed_its_metadata");
+        self.toks[t].flaky = false;
         self.toks[t].name = name.to_string();
         self.toks[t].symbol = symbol.to_string();
         self.toks[t].decimals = decimals;
